@@ -199,17 +199,17 @@ def _unit(draw, gv, T, profiles=False, allow_fuel=True):
         # exact, monotone profiles below the minimum capacity
         # profiles: exact (upper bounds omitted = documented default, or given equal) or a band [lower, upper];
         # as lists or float arrays
-        a["profile_form"] = draw(st.sampled_from(["list", "list", "array"]))
+        a["profile_form"] = draw(st.sampled_from(["list", "array"]))
         for which, key, pool in (("start", "SRT", [0.5, 0.75, 1.0, 1.0]), ("shutdown", "SDT", [0.25, 0.5, 0.75, 1.0])):
             if not draw(st.booleans()):
                 continue
             n = draw(st.sampled_from([1, 1, 2, 2, 3]))
             vals = sorted(draw(st.lists(st.sampled_from(pool), min_size=n, max_size=n)))
-            band = draw(st.sampled_from([0.0, 0.0, 0.0, 0.25]))
+            band = draw(st.sampled_from([0.0, 0.0, 0.25, 0.25]))
             cap_ = min(meta.get("max_series") or [maxq])
             his = [min((v + band) * minq, cap_) for v in vals]     # profiles stay within the capacity
             a["%s_ramp_lower_bounds" % which] = [v * minq / dt0 for v in vals]
-            if band or draw(st.booleans()):
+            if band or draw(st.integers(0, 2)) == 0:      # exact profiles mostly leave the upper bounds at their default
                 a["%s_ramp_upper_bounds" % which] = [h / dt0 for h in his]
             meta[key] = n
             meta["start_prof" if which == "start" else "shut_prof"] = \
